@@ -179,6 +179,25 @@ func hasSplit(e mrogen.Expr) bool {
 	return false
 }
 
+// splitSourceRemoved: is the parameter split over in some map call of the
+// callable?  Then the call maps over something else (or over less) after the
+// removal, and what it and everything downstream resolves to may change.
+func splitSourceRemoved(prog *mrogen.Program, callable, param string) bool {
+	for _, pl := range prog.Pipelines {
+		for _, c := range pl.Calls {
+			if c.Callee != callable || !c.Mapped {
+				continue
+			}
+			for _, b := range c.Bindings {
+				if b.Param == param && hasSplit(b.E) {
+					return true
+				}
+			}
+		}
+	}
+	return false
+}
+
 // soleSplitSource: is the parameter, in some map call of the callable, the
 // only binding that is split over?  Removing it cannot leave a valid map
 // call (and turning the call into a plain one changes its output type), so
@@ -449,7 +468,7 @@ func expStr(e syntax.Exp) string {
 // outputs of the top-level call are the same.  With callsMayGo, stage nodes
 // may disappear, but never a preflight; without it the set of nodes is the
 // same and only nodes of the edited callable lose exactly the one input.
-func compareGraphsAfterRemoval(ast0, ast1 *syntax.Ast, callable, param string, callsMayGo bool) string {
+func compareGraphsAfterRemoval(ast0, ast1 *syntax.Ast, callable, param string, callsMayGo, splitRemoved bool) string {
 	g0, err0, p0 := safeCallGraph(ast0)
 	g1, err1, p1 := safeCallGraph(ast1)
 	if p0 != nil || err0 != nil {
@@ -469,6 +488,20 @@ func compareGraphsAfterRemoval(ast0, ast1 *syntax.Ast, callable, param string, c
 	for _, id := range ids {
 		a, b := n0[id], n1[id]
 		if a == nil {
+			// a map call whose dynamic split source went away with the
+			// removed parameters is expanded statically where it was not
+			// before: nodes below it are new
+			unexpanded := false
+			for p := id; strings.Contains(p, "."); {
+				p = p[:strings.LastIndexByte(p, '.')]
+				if anc := n0[p]; anc != nil {
+					unexpanded = anc.Kind() == syntax.KindPipeline && len(anc.GetChildren()) == 0
+					break
+				}
+			}
+			if unexpanded {
+				continue
+			}
 			return "node " + id + " is new in the edited program"
 		}
 		if a.Kind() != b.Kind() || a.Callable().GetId() != b.Callable().GetId() {
@@ -483,7 +516,7 @@ func compareGraphsAfterRemoval(ast0, ast1 *syntax.Ast, callable, param string, c
 		// literal one, which shows in how its other inputs resolve)
 		mappedTarget := callable != "" && a.Callable().GetId() == callable && a.Call() != nil && a.Call().Mapping != nil
 		for k, v1 := range in1 {
-			if mappedTarget {
+			if mappedTarget || splitRemoved {
 				break
 			}
 			v0, ok := in0[k]
@@ -504,7 +537,7 @@ func compareGraphsAfterRemoval(ast0, ast1 *syntax.Ast, callable, param string, c
 		if len(in1) != want {
 			return fmt.Sprintf("node %s has %d inputs after the edit, expected %d", id, len(in1), want)
 		}
-		if mappedTarget {
+		if mappedTarget || splitRemoved {
 			// (nor is it disabled by the disabled source of that split)
 			continue
 		}
@@ -861,11 +894,11 @@ func TestC19Refactor(t *testing.T) {
 				fail(t, "C19", "rename-round-trip-differs:"+kind, "X->Y then Y->X is not equivalent to the original:\n%s\n%s", firstDiff(j0, j2), describe("--- renamed back\n"+out2))
 			}
 		case "remove-input":
-			if msg := compareGraphsAfterRemoval(ast0, ast1, target, param, false); msg != "" {
+			if msg := compareGraphsAfterRemoval(ast0, ast1, target, param, false, splitSourceRemoved(prog, target, param)); msg != "" {
 				fail(t, "C19", "call-graph-changed:"+kind, "%s\n%s", msg, describe("--- edited\n"+out))
 			}
 		case "remove-unused":
-			if msg := compareGraphsAfterRemoval(ast0, ast1, "", "", true); msg != "" {
+			if msg := compareGraphsAfterRemoval(ast0, ast1, "", "", true, false); msg != "" {
 				fail(t, "C19", "call-graph-changed:"+kind, "%s\n%s", msg, describe("--- edited\n"+out))
 			}
 			// the top-level call's signature must be untouched
